@@ -6,6 +6,7 @@ import (
 	"math/rand"
 	"runtime"
 	"sort"
+	"strconv"
 	"strings"
 	"sync"
 	"sync/atomic"
@@ -68,6 +69,11 @@ func init() {
 			"every second case ends with a mutual-wait stage (1-2 rounds): the application handlers are unsubscribed and subscribed anew in a drawn order (2 or 3 of them), then one event is published during which an earlier subscribed application handler stays inside HandleEvent until a later subscribed one has entered HandleEvent for the same event (bounded wait; first round: that, or all of them wait for all the others; second round also a later subscribed one waiting for an earlier one); " +
 			"non-trivial if at least one exactly-once pair, one zero pair (unsubscribed before the publication) and one re-entrant action inside a handler were judged. " +
 			"integrated: case = 1-3 peers announcing (concurrently in half of the cases), some after a reconnect, over a connection writer that takes 0/0.1/0.3/2 ms per write and, per round drawn, parks the write of the NodeManagement subscription call, of the use-case read, of both or of neither until the case releases it; non-trivial if every DeviceChange/add reached both application handlers and the completion of the two writes was compared with the entry of the first application handler and with the return of HandleSpineMesssage. " +
+			"bus, payload: every field of every published payload is a function of (case salt, publication number): all 5 event types x 3 change types, device / entity / feature / local feature present or nil, function, classifier pointer or nil, Data nil / token pointer / model struct pointer / string; the publication number travels in the Ski; every delivery compares the whole payload with the one handed to Publish. " +
+			"bus, action 'block': an application handler stays inside HandleEvent until its publication has returned, bounded by 5 s; expiry together with the logged order 'Publish returned after the handler had left' is the violation (Publish waits for application handlers). " +
+			"integrated, two cases in five are connection life cycle histories (sequential script over 1-3 peers of setup / setup with FAST reply / announce / leave, six templates + 0-4 drawn steps): the announcing peer is the only connection (first ever, or first after the last connection was removed), another peer left for good between a peer's connection and its announcement, " +
+			"and fast reply = the peer's discovery reply is processed on a helper goroutine from INSIDE the connection write of the discovery read, the write returning when a core-level observer subscribed before any connection has seen the event (15 s bound, expiry inconclusive); in a third of the drawn steps application handler 1 disconnects the event's own device from inside HandleEvent, handler 2 sets data on a local server feature and subscribes a local client feature to the announcing device. " +
+			"Expected deliveries per peer = number of announcements of the script (classic cases: number of discovery replies processed), not what another bus handler saw. " +
 			"distinct = hash of operation kinds, targets, goroutine split and action slots.",
 		Assumptions: []string{
 			"a delivery is attributed to the core level if it ran on the goroutine that called Publish, else to the application level (only needed for the handler that is subscribed at both levels)",
@@ -81,8 +87,8 @@ func init() {
 		Parts: []rig.Part{
 			{Name: "bus", Run: c15Bus, Procs: 4, Quiet: 50 * time.Second, Cases: func(t rig.Tier) int { return map[rig.Tier]int{rig.Quick: 300, rig.Thorough: 5000}[t] }},
 			{Name: "bus-race", Race: true, Run: c15Bus, Procs: 4, Quiet: 90 * time.Second, Cases: func(t rig.Tier) int { return map[rig.Tier]int{rig.Quick: 64, rig.Thorough: 800}[t] }},
-			{Name: "integrated", Run: c15Integrated, Procs: 4, Quiet: 50 * time.Second, Cases: func(t rig.Tier) int { return map[rig.Tier]int{rig.Quick: 60, rig.Thorough: 600}[t] }},
-			{Name: "integrated-race", Race: true, Run: c15Integrated, Procs: 4, Quiet: 90 * time.Second, Cases: func(t rig.Tier) int { return map[rig.Tier]int{rig.Quick: 16, rig.Thorough: 160}[t] }},
+			{Name: "integrated", Run: c15Integrated, Procs: 4, Quiet: 50 * time.Second, Cases: func(t rig.Tier) int { return map[rig.Tier]int{rig.Quick: 80, rig.Thorough: 800}[t] }},
+			{Name: "integrated-race", Race: true, Run: c15Integrated, Procs: 4, Quiet: 90 * time.Second, Cases: func(t rig.Tier) int { return map[rig.Tier]int{rig.Quick: 20, rig.Thorough: 200}[t] }},
 		},
 	})
 }
@@ -162,6 +168,10 @@ type c15Case struct {
 	ops       []c15BusOp
 	dels      []c15Del
 	nextTok   int
+	toks      map[int]*c15Token        // the token travels in the Ski (the Data field is drawn like every other field)
+	payloads  map[int]api.EventPayload // what was handed to Publish
+	salt      uint64                   // drawn per case: the payload of publication i is a function of (salt, i)
+	paydevs   []string                 // deliveries whose payload differs from the published one
 	reentrant map[string]int
 	connSeq   int64
 
@@ -205,16 +215,34 @@ const (
 	c15AwaitOK      = "await-other-handlers:entered-meanwhile"
 	c15AwaitExpired = "await-other-handlers:EXPIRED"
 	c15AwaitSkipped = "await-other-handlers:not-waited(another wait had expired)"
+	c15BlockExpired = "block:EXPIRED(Publish had not returned)"
 )
 
 func (h *c15Handler) HandleEvent(p api.EventPayload) {
-	tok, ok := p.Data.(*c15Token)
-	if !ok || tok.cs != h.cs {
+	cs := h.cs
+	base := c15SkiPrefix + cs.c.Tag() + "#"
+	if !strings.HasPrefix(p.Ski, base) {
 		return // an event of the stack or of another case
 	}
-	cs := h.cs
+	tid, err := strconv.Atoi(p.Ski[len(base):])
+	if err != nil {
+		return
+	}
+	cs.mu.Lock()
+	tok, want := cs.toks[tid], cs.payloads[tid]
+	cs.mu.Unlock()
+	if tok == nil {
+		return
+	}
 	g := eGoid()
 	entry := rig.Seq()
+	if diff := c15PayloadDiff(want, p); diff != "" {
+		cs.mu.Lock()
+		if len(cs.paydevs) < 20 {
+			cs.paydevs = append(cs.paydevs, fmt.Sprintf("%s received e%d (%s) with %s", cs.names[h.idx], tid, c15PayloadKind(want), diff))
+		}
+		cs.mu.Unlock()
+	}
 	act := cs.acts[h.idx][tok.id%len(cs.acts[h.idx])]
 	cs.mu.Lock()
 	onPublisher := cs.pubs[tok.id] != nil && cs.pubs[tok.id].goid == g
@@ -302,11 +330,17 @@ func (cs *c15Case) perform(h *c15Handler, tok *c15Token, a c15Act, onPublisher b
 				cs.c.Violate("reentrant/connection-call-panics", "%s: %s", by, p)
 			}
 		case "block":
-			// application handlers are asynchronous: Publish returns although this handler has not
+			// application handlers are asynchronous: Publish returns although this handler has not. The wait is bounded
+			// (all core-level handlers of this event have finished when an application handler runs, Publish only has to
+			// start the remaining application goroutines and return); on expiry the handler leaves, and the verdict is
+			// taken on the logged order: Publish returned only after this handler had left
 			select {
 			case <-tok.returned:
-			case <-time.After(60 * time.Second):
-				cs.c.Inconclusive("%s: Publish of e%d had not returned 60s after an application handler started", by, tok.id)
+			case <-time.After(c15AwaitBound):
+				cs.mu.Lock()
+				cs.reentrant[a.kind]++
+				cs.mu.Unlock()
+				return c15BlockExpired
 			}
 		}
 	}
@@ -341,6 +375,78 @@ func (cs *c15Case) busOp(kind string, level, h int, by string) {
 	cs.mu.Unlock()
 }
 
+// drawPayload: every field of the payload is a function of (case salt, publication number): all five event types,
+// all three change types, device / entity / feature / local feature present or nil, function, classifier pointer or
+// nil, and Data nil, a token pointer, a model struct pointer or a string. Only the Ski is fixed (it carries the
+// publication number and a prefix no handler of the stack or of a rig.World reacts to).
+func (cs *c15Case) drawPayload(id int, tok *c15Token) api.EventPayload {
+	x := (uint64(id)+1)*0x9E3779B97F4A7C15 ^ cs.salt
+	next := func(n int) int {
+		x ^= x >> 29
+		x *= 0xBF58476D1CE4E5B9
+		x ^= x >> 32
+		return int(x % uint64(n))
+	}
+	p := api.EventPayload{Ski: fmt.Sprintf("%s%s#%d", c15SkiPrefix, cs.c.Tag(), id)}
+	p.EventType = []api.EventType{api.EventTypeDeviceChange, api.EventTypeEntityChange, api.EventTypeSubscriptionChange, api.EventTypeBindingChange, api.EventTypeDataChange}[next(5)]
+	p.ChangeType = []api.ElementChangeType{api.ElementChangeAdd, api.ElementChangeUpdate, api.ElementChangeRemove}[next(3)]
+	if cs.peer != nil && cs.peer.RD != nil {
+		if next(2) == 0 {
+			p.Device = cs.peer.RD
+		}
+		if es := cs.peer.RD.Entities(); len(es) > 0 && next(2) == 0 {
+			e := es[next(len(es))]
+			p.Entity = e
+			if fs := e.Features(); len(fs) > 0 && next(2) == 0 {
+				p.Feature = fs[next(len(fs))]
+			}
+		}
+	}
+	if next(2) == 0 {
+		p.LocalFeature = cs.feat
+	}
+	p.Function = []model.FunctionType{"", model.FunctionTypeMeasurementListData, model.FunctionTypeLoadControlLimitListData}[next(3)]
+	if next(2) == 0 {
+		p.CmdClassifier = util.Ptr([]model.CmdClassifierType{model.CmdClassifierTypeWrite, model.CmdClassifierTypeNotify, model.CmdClassifierTypeReply}[next(3)])
+	}
+	switch next(4) {
+	case 0: // nil
+	case 1:
+		p.Data = tok
+	case 2:
+		p.Data = &model.MeasurementListDataType{MeasurementData: []model.MeasurementDataType{{MeasurementId: util.Ptr(model.MeasurementIdType(id))}}}
+	default:
+		p.Data = fmt.Sprintf("data of e%d", id)
+	}
+	return p
+}
+
+func c15PayloadKind(p api.EventPayload) string {
+	return fmt.Sprintf("type=%d change=%d device=%v entity=%v feature=%v local=%v function=%q classifier=%v data=%T", p.EventType, p.ChangeType, p.Device != nil, p.Entity != nil, p.Feature != nil, p.LocalFeature != nil, p.Function, p.CmdClassifier != nil, p.Data)
+}
+
+// c15PayloadDiff compares the payload a handler received with the one handed to Publish, field by field (interfaces
+// and pointers by identity: the bus hands the payload on, it does not copy what it refers to).
+func c15PayloadDiff(want, got api.EventPayload) string {
+	var d []string
+	add := func(name string, same bool, w, g any) {
+		if !same {
+			d = append(d, fmt.Sprintf("%s=%v (published: %v)", name, g, w))
+		}
+	}
+	add("Ski", want.Ski == got.Ski, want.Ski, got.Ski)
+	add("EventType", want.EventType == got.EventType, want.EventType, got.EventType)
+	add("ChangeType", want.ChangeType == got.ChangeType, want.ChangeType, got.ChangeType)
+	add("Device", want.Device == got.Device, want.Device != nil, got.Device != nil)
+	add("Entity", want.Entity == got.Entity, want.Entity != nil, got.Entity != nil)
+	add("Feature", want.Feature == got.Feature, want.Feature != nil, got.Feature != nil)
+	add("LocalFeature", want.LocalFeature == got.LocalFeature, want.LocalFeature != nil, got.LocalFeature != nil)
+	add("Function", want.Function == got.Function, want.Function, got.Function)
+	add("CmdClassifier", want.CmdClassifier == got.CmdClassifier, want.CmdClassifier, got.CmdClassifier)
+	add("Data", want.Data == got.Data, fmt.Sprintf("%T", want.Data), fmt.Sprintf("%T", got.Data))
+	return strings.Join(d, ", ")
+}
+
 func (cs *c15Case) publish(depth int, by string) {
 	cs.mu.Lock()
 	id := cs.nextTok
@@ -352,7 +458,10 @@ func (cs *c15Case) publish(depth int, by string) {
 	}
 	cs.mu.Unlock()
 	tok := &c15Token{cs: cs, id: id, depth: depth, returned: make(chan struct{})}
-	payload := api.EventPayload{Ski: c15SkiPrefix + cs.c.Tag(), EventType: api.EventTypeDataChange, ChangeType: api.ElementChangeUpdate, Data: tok}
+	payload := cs.drawPayload(id, tok)
+	cs.mu.Lock()
+	cs.toks[id], cs.payloads[id] = tok, payload
+	cs.mu.Unlock()
 	p := eGuard(cs.c, fmt.Sprintf("Publish(e%d) by %s", id, by), func() {
 		defer close(tok.returned)
 		g := eGoid()
@@ -403,7 +512,7 @@ func c15Bus(c *rig.Ctx) {
 	c.Count("foreign_handlers_subscribed_at_start", int64(spine.VerifHandlerCount()))
 
 	cs := &c15Case{c: c, w: w, ent: ent, feat: feat, peer: peer, names: []string{"K1", "K2", "A1", "A2", "A3"},
-		pubs: map[int]*c15Pub{}, reentrant: map[string]int{}, awaits: map[int]*c15Await{}}
+		pubs: map[int]*c15Pub{}, reentrant: map[string]int{}, awaits: map[int]*c15Await{}, toks: map[int]*c15Token{}, payloads: map[int]api.EventPayload{}, salt: r.Uint64()}
 	for i := range cs.names {
 		cs.hs = append(cs.hs, &c15Handler{cs: cs, idx: i})
 	}
@@ -798,7 +907,29 @@ func (cs *c15Case) judge(dual bool, levelsOf func(int) []int, nPub int, shape st
 				if d.entry < t0 {
 					c.Violate("app/entry-before-publish", "application handler %s entered e%d at %d, Publish was called at %d", cs.names[k.h], id, d.entry, t0)
 				}
+				switch d.act {
+				case "block":
+					c.Events(1)
+					c.Count("app_handler_inside_HandleEvent_saw_its_publication_return", 1)
+				case c15BlockExpired:
+					c.Events(1)
+					if t1 > d.exit {
+						c.Violate("app/publish-waits-for-application-handler", "application handler %s stayed inside HandleEvent for e%d [%d,%d] until Publish(e%d) would have returned: that did not happen within %s; Publish returned at %d, after the handler had left. "+
+							"The publication waits for an application handler: application handlers do not run asynchronously\n%s", cs.names[k.h], id, d.entry, d.exit, id, c15AwaitBound, t1, witness())
+					} else {
+						c.Inconclusive("e%d: the %s wait of %s [%d,%d] for the return of Publish expired although it returned at %d", id, c15AwaitBound, cs.names[k.h], d.entry, d.exit, t1)
+					}
+				}
 			}
+		}
+	}
+	// every delivery carries the payload that was handed to Publish, whatever its kind
+	if len(cs.paydevs) > 0 {
+		c.Violate("bus/payload-differs-from-the-published-one", "%s\n%s", strings.Join(cs.paydevs, "\n"), witness())
+	}
+	for _, id := range ids {
+		if pl, ok := cs.payloads[id]; ok && len(delsByTok[id]) > 0 {
+			c.Seen("event_kinds_delivered", fmt.Sprintf("type=%d change=%d data=%T", pl.EventType, pl.ChangeType, pl.Data))
 		}
 	}
 	// mutual-wait stage: every wait of an application handler for the entry of other application handlers of the
@@ -957,6 +1088,12 @@ type c15IntHandler struct {
 	mu   sync.Mutex
 	adds []c15IntEv // DeviceChange/add deliveries
 	all  int
+	// life cycle histories: state-changing calls into the stack from inside the handler of DeviceChange/add (n: how many
+	// such events of that SKI this handler has seen before); a panic in there is recorded, a call that does not return
+	// keeps inAct above zero
+	act    func(p api.EventPayload, n int)
+	inAct  atomic.Int32
+	panics []string
 }
 
 func (h *c15IntHandler) HandleEvent(p api.EventPayload) {
@@ -973,6 +1110,21 @@ func (h *c15IntHandler) HandleEvent(p api.EventPayload) {
 			_ = rd.Entities()
 		}
 		_ = h.w.Local.RemoteDevices()
+		if h.act != nil {
+			n := len(h.addsFor(p.Ski))
+			func() {
+				h.inAct.Add(1)
+				defer func() {
+					if x := recover(); x != nil {
+						h.mu.Lock()
+						h.panics = append(h.panics, fmt.Sprint(x))
+						h.mu.Unlock()
+					}
+					h.inAct.Add(-1)
+				}()
+				h.act(p, n)
+			}()
+		}
 	}
 	h.mu.Lock()
 	h.all++
@@ -1007,6 +1159,10 @@ type c15Writer struct {
 	starts []c15WriteStart
 	delay  time.Duration
 	gates  map[string]*c15WriteGate // "subscription-call" / "use-case-read" -> gate of the first such write
+	// eager (lifecycle histories): called once, from INSIDE the write of the connection's detailed discovery read, with
+	// the datagram being written: the peer answers before the stack's send call has returned
+	eager     func(d model.DatagramType)
+	eagerOnce sync.Once
 }
 
 type c15WriteStart struct {
@@ -1029,6 +1185,8 @@ func c15WriteKind(d model.DatagramType) string {
 		return "subscription-call"
 	case cl == model.CmdClassifierTypeRead && cmd.NodeManagementUseCaseData != nil:
 		return "use-case-read"
+	case cl == model.CmdClassifierTypeRead && cmd.NodeManagementDetailedDiscoveryData != nil:
+		return "discovery-read"
 	}
 	return ""
 }
@@ -1050,6 +1208,9 @@ func (t *c15Writer) WriteShipMessageWithPayload(m []byte) {
 			close(gate.entered)
 			gate.g.wait()
 		}
+	}
+	if kind == "discovery-read" && t.eager != nil {
+		t.eagerOnce.Do(func() { t.eager(d.Datagram) })
 	}
 	if t.delay > 0 {
 		time.Sleep(t.delay)
@@ -1079,6 +1240,10 @@ func (t *c15Writer) take() []rig.Out {
 }
 
 func c15Integrated(c *rig.Ctx) {
+	if c.Index%5 == 1 || c.Index%5 == 3 {
+		c15Lifecycle(c) // connection life cycle histories (c15_life below)
+		return
+	}
 	r := c.Rand
 	w := rig.NewWorld(c.Tag())
 	defer w.Close()
@@ -1400,16 +1565,26 @@ func c15Integrated(c *rig.Ctx) {
 			c.Violate("integrated/use-case-read-not-written-when-processing-of-the-discovery-reply-returned", "%s: HandleSpineMesssage returned at %d; use-case read on the tap: %d (0 = never)%s", id, o.returned, ucSeq, ctx)
 		}
 	}
+	// the expectation comes from the script, not from another bus handler: every discovery reply whose processing
+	// returned announced a new connection, which is one DeviceChange/add for every subscribed handler of either level
+	processed := make([]int, len(w.Peers))
+	for _, o := range obs {
+		processed[o.peer]++
+	}
 	for i, p := range w.Peers {
 		for hi, h := range []*c15IntHandler{h1, h2} {
 			c.Events(1)
 			got := len(h.addsFor(p.Ski))
 			switch {
-			case got < published[p.Ski]:
-				c.Violate("integrated/missing-delivery", "peer %d: %d DeviceChange/add events were published (core level), application handler %d received %d", i, published[p.Ski], hi+1, got)
-			case got > published[p.Ski]:
-				c.Violate("integrated/delivered-more-than-once", "peer %d: %d DeviceChange/add events were published (core level), application handler %d (subscribed %d times) received %d", i, published[p.Ski], hi+1, hi+1, got)
+			case got < processed[i]:
+				c.Violate("integrated/missing-delivery", "peer %d: %d discovery replies of new connections were processed (one DeviceChange/add each; the case's core-level handler saw %d), application handler %d received %d; the process is quiet", i, processed[i], published[p.Ski], hi+1, got)
+			case got > processed[i]:
+				c.Violate("integrated/delivered-more-than-once", "peer %d: %d discovery replies of new connections were processed (one DeviceChange/add each; the case's core-level handler saw %d), application handler %d (subscribed %d times) received %d", i, processed[i], published[p.Ski], hi+1, hi+1, got)
 			}
+		}
+		c.Events(1)
+		if published[p.Ski] != processed[i] {
+			c.Violate("integrated/core-level-handler-delivery-count", "peer %d: %d discovery replies of new connections were processed (one DeviceChange/add each), the case's core-level handler (subscribed before the first connection) received %d", i, processed[i], published[p.Ski])
 		}
 		if published[p.Ski] != rounds[i] {
 			complete = false
@@ -1422,4 +1597,466 @@ func c15Integrated(c *rig.Ctx) {
 	c.NonTrivial(complete && len(obs) > 0)
 	c.Count("integrated_rounds", int64(len(obs)))
 	c.Sample(map[string]any{"peers": nPeers, "rounds": rounds, "concurrent": concurrent, "writer_delay": delay.String(), "parked_writes": park, "trace": trace})
+}
+
+// ---------------------------------------------------------------------------
+// integrated path, connection life cycle histories (two cases in five of part integrated)
+//
+// "DeviceLocal registers itself as the core handler while peers are connected": the stack's own handling of
+// DeviceChange/add (subscription call + use-case read to the announcing peer) must have happened before an
+// application handler of that event is entered, for EVERY connection history - in particular when the announcing
+// peer is the only connection (the first one ever, or the first one after the last connection was removed: the stack
+// drops its core-level subscription with the last connection), when another peer left for good between this peer's
+// connection and its announcement, and when the peer answers FAST: its discovery reply is processed by the
+// connection's reader goroutine while the stack's send call of the discovery read has not returned yet (the
+// connection writer of these cases delivers the reply through HandleSpineMesssage from a helper goroutine from inside
+// that write and returns when a core-level observer of the case - subscribed before any connection exists, hence
+// called before the stack's own handler - has seen the event, i.e. when the publication has taken place; bounded,
+// expiry => inconclusive). The script is sequential; verdicts on logged order exactly as in c15Integrated, and the
+// number of DeviceChange/add deliveries expected per peer is the number of announcements of the script (not what
+// another bus handler saw).
+
+type c15LifeCore struct {
+	tag  string
+	mu   sync.Mutex
+	adds map[string]int
+}
+
+func (o *c15LifeCore) HandleEvent(p api.EventPayload) {
+	if !strings.HasPrefix(p.Ski, o.tag) || p.EventType != api.EventTypeDeviceChange || p.ChangeType != api.ElementChangeAdd {
+		return
+	}
+	o.mu.Lock()
+	o.adds[p.Ski]++
+	o.mu.Unlock()
+}
+
+func (o *c15LifeCore) n(ski string) int { o.mu.Lock(); defer o.mu.Unlock(); return o.adds[ski] }
+
+type c15LifeStep struct {
+	kind  string // setup | announce | leave
+	peer  int
+	eager bool // setup: the peer's discovery reply is processed inside the write of the discovery read
+	// announcing steps: application handler 1 removes the connection of the event's own device from inside HandleEvent
+	handlerLeaves bool
+}
+
+func (s c15LifeStep) String() string {
+	x := ""
+	if s.handlerLeaves {
+		x = "+handler-disconnects-it"
+	}
+	if s.kind == "setup" && s.eager {
+		return fmt.Sprintf("setup+fast-reply(%d)%s", s.peer, x)
+	}
+	return fmt.Sprintf("%s(%d)%s", s.kind, s.peer, x)
+}
+
+func c15Lifecycle(c *rig.Ctx) {
+	r := c.Rand
+	w := rig.NewWorld(c.Tag())
+	defer w.Close()
+	ent := w.AddEntity(model.EntityTypeTypeCEM, []uint{1}, 4*time.Second)
+	ent.GetOrAddFeature(model.FeatureTypeTypeMeasurement, model.RoleTypeClient)
+	h1 := &c15IntHandler{tag: c.Tag(), w: w}
+	h2 := &c15IntHandler{tag: c.Tag(), w: w}
+	core := &c15LifeCore{tag: c.Tag(), adds: map[string]int{}}
+	_ = spine.VerifSubscribeCore(core) // before any connection: it precedes the stack's own handler in the handler list
+	_ = spine.Events.Subscribe(h1)
+	_ = spine.Events.Subscribe(h2)
+	_ = spine.Events.Subscribe(h2)
+	defer func() {
+		_ = spine.Events.Unsubscribe(h1)
+		_ = spine.Events.Unsubscribe(h2)
+		_ = spine.VerifUnsubscribeCore(core)
+	}()
+	baseline := eStableGoroutines()
+	feats := []rig.FS{rig.NMFS, {Ent: []uint{1}, Id: 1, Typ: model.FeatureTypeTypeMeasurement, Role: model.RoleTypeServer}}
+	delay := []time.Duration{0, 0, 100 * time.Microsecond, 300 * time.Microsecond, 2 * time.Millisecond}[r.Intn(5)]
+
+	// ---- the script
+	nPeers := []int{1, 1, 2, 2, 3}[r.Intn(5)]
+	var script []c15LifeStep
+	tmpl := (c.Index/5*2 + c.Index%5/2) % 6 // c.Index%5 is 1 or 3: consecutive life cycle cases walk through the templates
+	switch tmpl {
+	case 0: // the first connection ever answers fast
+		script = []c15LifeStep{{"setup", 0, true, r.Intn(2) == 0}}
+	case 1: // the last connection is removed, then the same peer connects again and answers fast
+		script = []c15LifeStep{{"setup", 0, r.Intn(2) == 0, false}, {"announce", 0, false, false}, {"leave", 0, false, false}, {"setup", 0, true, false}}
+	case 2: // A and B connected, A announces and leaves for good, then B announces
+		nPeers = max(nPeers, 2)
+		script = []c15LifeStep{{"setup", 0, false, false}, {"setup", 1, false, false}, {"announce", 0, false, false}, {"leave", 0, false, false}, {"announce", 1, false, false}}
+	case 3: // A leaves for good, then B connects as the only connection and answers fast
+		nPeers = max(nPeers, 2)
+		script = []c15LifeStep{{"setup", 0, r.Intn(2) == 0, false}, {"announce", 0, false, false}, {"leave", 0, false, false}, {"setup", 1, true, r.Intn(3) == 0}}
+	case 4: // B connects while A is there, A leaves (announced or not), then B announces
+		nPeers = max(nPeers, 2)
+		script = []c15LifeStep{{"setup", 0, r.Intn(2) == 0, false}, {"announce", 0, false, false}, {"setup", 1, false, false}, {"leave", 0, false, false}, {"announce", 1, false, false}}
+		if r.Intn(2) == 0 {
+			script = []c15LifeStep{{"setup", 0, false, false}, {"setup", 1, false, false}, {"leave", 0, false, false}, {"announce", 1, false, false}}
+		}
+	}
+	st := make([]int, nPeers) // 0 not connected, 1 connected, 2 announced
+	for i := 0; i < len(script); i++ {
+		s := &script[i]
+		switch {
+		case s.kind == "announce" && st[s.peer] == 2: // (the setup before it answered fast)
+			script = append(script[:i], script[i+1:]...)
+			i--
+		case s.kind == "setup" && s.eager, s.kind == "announce":
+			st[s.peer] = 2
+			if s.handlerLeaves {
+				st[s.peer] = 0
+			}
+		case s.kind == "setup":
+			st[s.peer] = 1
+		default:
+			st[s.peer] = 0
+		}
+	}
+	for n := r.Intn(5); n > 0; n-- {
+		i := r.Intn(nPeers)
+		hl := r.Intn(3) == 0 // the application disconnects the device from inside its handler of DeviceChange/add
+		switch st[i] {
+		case 0:
+			eager := r.Intn(2) == 0
+			script = append(script, c15LifeStep{"setup", i, eager, eager && hl})
+			st[i] = 1
+			if eager {
+				st[i] = 2
+				if hl {
+					st[i] = 0
+				}
+			}
+		case 1:
+			if r.Intn(10) < 7 {
+				script = append(script, c15LifeStep{"announce", i, false, hl})
+				st[i] = 2
+				if hl {
+					st[i] = 0
+				}
+			} else {
+				script = append(script, c15LifeStep{"leave", i, false, false})
+				st[i] = 0
+			}
+		default:
+			script = append(script, c15LifeStep{"leave", i, false, false})
+			st[i] = 0
+		}
+	}
+	var shape []string
+	for _, s := range script {
+		shape = append(shape, s.String())
+	}
+	c.Shape(fmt.Sprintf("lifecycle peers=%d writer-delay=%s %s", nPeers, delay, strings.Join(shape, " ")))
+
+	// ---- execution
+	peers := make([]*rig.Peer, nPeers)
+	writers := make([]*c15Writer, nPeers)
+	for i := range peers {
+		peers[i] = &rig.Peer{Ski: fmt.Sprintf("%s-ski%d", c.Tag(), i), Addr: fmt.Sprintf("dev%d", i), Tap: &rig.Tap{}, W: w, Ctr: uint64(i+1) * 100000}
+		w.Peers = append(w.Peers, peers[i])
+	}
+	type lifeObs struct {
+		step, peer, idx int // idx: n-th announcement of this peer
+		wr              *c15Writer
+		returned        int64
+		how             string
+	}
+	var obs []lifeObs
+	var trace []string
+	expected := make([]int, nPeers)
+	connected := make([]bool, nPeers)
+	leftSince := make([]bool, nPeers) // another peer left since this peer was set up
+	anyLeft := false
+	// state-changing calls into the stack from inside application handlers of DeviceChange/add ("handlers may ... call back
+	// into the stack while handling an event without blocking it"): handler 1 disconnects the event's own device where the
+	// script says so; handler 2 sets data on a local server feature and subscribes a local client feature to the
+	// announcing device's server feature (not while handler 1 disconnects that device)
+	srv := ent.GetOrAddFeature(model.FeatureTypeTypeLoadControl, model.RoleTypeServer)
+	srv.AddFunctionType(model.FunctionTypeLoadControlLimitListData, true, false)
+	cli := ent.GetOrAddFeature(model.FeatureTypeTypeMeasurement, model.RoleTypeClient)
+	var actMu sync.Mutex
+	leaveAt := map[string]bool{} // "<ski>#<n>"
+	var nLeft, nSet, nSub atomic.Int64
+	h1.act = func(p api.EventPayload, n int) {
+		actMu.Lock()
+		leave := leaveAt[fmt.Sprintf("%s#%d", p.Ski, n)]
+		actMu.Unlock()
+		if leave {
+			w.Local.RemoveRemoteDeviceConnection(p.Ski)
+			nLeft.Add(1)
+		}
+	}
+	h2.act = func(p api.EventPayload, n int) {
+		srv.SetData(model.FunctionTypeLoadControlLimitListData, &model.LoadControlLimitListDataType{LoadControlLimitData: []model.LoadControlLimitDataType{{LimitId: util.Ptr(model.LoadControlLimitIdType(n + 1))}}})
+		nSet.Add(1)
+		actMu.Lock()
+		leave := leaveAt[fmt.Sprintf("%s#%d", p.Ski, n)]
+		actMu.Unlock()
+		if rd := w.Local.RemoteDeviceForSki(p.Ski); rd != nil && rd.Address() != nil && !leave {
+			_, _ = cli.SubscribeToRemote(rig.FA(string(*rd.Address()), []uint{1}, 1))
+			nSub.Add(1)
+		}
+	}
+	handlersDone := func(si int) bool {
+		if h1.inAct.Load() == 0 && h2.inAct.Load() == 0 {
+			return true
+		}
+		c.Inconclusive("step %d: a call into the stack made from inside an application handler of DeviceChange/add has not returned; parking for the hang monitor", si)
+		for {
+			time.Sleep(time.Hour)
+		}
+	}
+	awaitApp := func(p *rig.Peer, want int) {
+		// until both application handlers have the event, or nothing is left in the process that could deliver it
+		stable := 0
+		for t0 := time.Now(); time.Since(t0) < 30*time.Second; time.Sleep(200 * time.Microsecond) {
+			if len(h1.addsFor(p.Ski)) >= want && len(h2.addsFor(p.Ski)) >= want {
+				return
+			}
+			if runtime.NumGoroutine() > baseline {
+				stable = 0
+			} else if stable++; stable >= 10 {
+				return
+			}
+		}
+	}
+	for si, s := range script {
+		p := peers[s.peer]
+		others := 0
+		for j, x := range connected {
+			if x && j != s.peer {
+				others++
+			}
+		}
+		switch s.kind {
+		case "setup":
+			wr := &c15Writer{delay: delay, gates: map[string]*c15WriteGate{}}
+			writers[s.peer] = wr
+			leftSince[s.peer] = false
+			if s.handlerLeaves {
+				actMu.Lock()
+				leaveAt[fmt.Sprintf("%s#%d", p.Ski, expected[s.peer])] = true
+				actMu.Unlock()
+			}
+			var retSeq int64
+			var panicked string
+			var expired, noRD atomic.Bool
+			done := make(chan struct{})
+			want := expected[s.peer] + 1
+			if s.eager {
+				wr.eager = func(d model.DatagramType) {
+					ref := d.Header.MsgCounter
+					go func() { // the connection's reader goroutine
+						defer close(done)
+						defer func() {
+							if x := recover(); x != nil {
+								panicked = fmt.Sprint(x)
+							}
+						}()
+						rd := w.Local.RemoteDeviceForSki(p.Ski)
+						if rd == nil {
+							noRD.Store(true)
+							return
+						}
+						dg := rig.Datagram(model.CmdClassifierTypeReply, p.NM(), rig.LNM, p.NextCounter(), false, ref, model.CmdType{NodeManagementDetailedDiscoveryData: p.Discovery(feats, nil, nil)})
+						b, _ := json.Marshal(dg)
+						_, _ = rd.HandleSpineMesssage(b)
+						retSeq = rig.Seq()
+					}()
+					for t0 := time.Now(); ; time.Sleep(50 * time.Microsecond) {
+						select {
+						case <-done:
+							return
+						default:
+						}
+						if core.n(p.Ski) >= want {
+							return
+						}
+						if time.Since(t0) > 15*time.Second {
+							expired.Store(true)
+							return
+						}
+					}
+				}
+			}
+			if pan := eGuard(c, "SetupRemoteDevice", func() {
+				w.Local.SetupRemoteDevice(p.Ski, wr)
+				p.RD = w.Local.RemoteDeviceForSki(p.Ski)
+			}); pan != "" {
+				c.Violate("integrated/setup-panics", "%s", pan)
+				return
+			}
+			connected[s.peer] = true
+			if s.eager {
+				select {
+				case <-done:
+				case <-time.After(30 * time.Second):
+					c.Inconclusive("step %d: the processing of the discovery reply delivered inside the write of the discovery read did not return within 30s; parking for the hang monitor", si)
+					for {
+						time.Sleep(time.Hour)
+					}
+				}
+				switch {
+				case panicked != "":
+					c.Violate("integrated/announce-panics", "%s", panicked)
+					return
+				case noRD.Load():
+					c.Inconclusive("step %d: the remote device was not registered when its discovery read was written", si)
+					return
+				case expired.Load():
+					c.Inconclusive("step %d: the discovery reply delivered inside the write of the discovery read was not published within 15s", si)
+					return
+				}
+				expected[s.peer]++
+				how := "fast reply (inside the write of the discovery read)"
+				if others == 0 {
+					how += ", only connection"
+					c.Count("lifecycle:fast-reply-as-the-only-connection", 1)
+					if anyLeft {
+						how += " after the last connection was removed"
+						c.Count("lifecycle:fast-reply-as-the-only-connection-after-the-last-one-was-removed", 1)
+					}
+				} else {
+					c.Count("lifecycle:fast-reply-with-other-connections", 1)
+				}
+				awaitApp(p, want)
+				obs = append(obs, lifeObs{step: si, peer: s.peer, idx: want - 1, wr: wr, returned: retSeq, how: how})
+			}
+		case "announce":
+			var retSeq int64
+			if s.handlerLeaves {
+				actMu.Lock()
+				leaveAt[fmt.Sprintf("%s#%d", p.Ski, expected[s.peer])] = true
+				actMu.Unlock()
+			}
+			if pan := eGuard(c, "processing of the discovery reply", func() {
+				p.Announce(feats)
+				retSeq = rig.Seq()
+			}); pan != "" {
+				c.Violate("integrated/announce-panics", "%s", pan)
+				return
+			}
+			if n := p.PanicCount(); n > 0 {
+				c.Violate("integrated/announce-panics", "%s", p.Panics[n-1])
+				return
+			}
+			expected[s.peer]++
+			how := "reply after the connection was set up"
+			if leftSince[s.peer] {
+				how += ", another peer left for good meanwhile"
+				c.Count("lifecycle:announce-after-another-peer-left", 1)
+				if others == 0 {
+					c.Count("lifecycle:announce-after-another-peer-left:only-connection-now", 1)
+				}
+			}
+			awaitApp(p, expected[s.peer])
+			obs = append(obs, lifeObs{step: si, peer: s.peer, idx: expected[s.peer] - 1, wr: writers[s.peer], returned: retSeq, how: how})
+		case "leave":
+			if pan := eGuard(c, "RemoveRemoteDeviceConnection", func() { w.Local.RemoveRemoteDeviceConnection(p.Ski) }); pan != "" {
+				c.Violate("integrated/disconnect-panics", "%s", pan)
+				return
+			}
+			connected[s.peer] = false
+			anyLeft = true
+			for j := range leftSince {
+				if j != s.peer && connected[j] {
+					leftSince[j] = true
+				}
+			}
+		}
+		if !rig.WaitQuiet(baseline, 30*time.Second) {
+			if handlersDone(si) {
+				c.Inconclusive("goroutine count did not return to its baseline (%d, now %d) after step %d", baseline, runtime.NumGoroutine(), si)
+			}
+			return
+		}
+		if s.handlerLeaves && s.kind != "leave" {
+			// application handler 1 has disconnected the device from inside its handler
+			if w.Local.RemoteDeviceForSki(p.Ski) != nil {
+				c.Violate("integrated/disconnect-from-inside-a-handler-has-no-effect", "step %d %s: RemoveRemoteDeviceConnection(%s) was called from inside the application handler of DeviceChange/add and returned, the device is still registered", si, s, p.Ski)
+			}
+			connected[s.peer] = false
+			anyLeft = true
+			for j := range leftSince {
+				if j != s.peer && connected[j] {
+					leftSince[j] = true
+				}
+			}
+		}
+	}
+	for hi, h := range []*c15IntHandler{h1, h2} {
+		h.mu.Lock()
+		if len(h.panics) > 0 {
+			c.Violate("reentrant/state-changing-stack-call-panics", "application handler %d: %v", hi+1, h.panics)
+		}
+		h.mu.Unlock()
+	}
+	c.Count("lifecycle:handler_disconnected_the_events_own_device", nLeft.Load())
+	c.Count("lifecycle:handler_SetData", nSet.Load())
+	c.Count("lifecycle:handler_SubscribeToRemote", nSub.Load())
+
+	// ---- verdicts (logged order)
+	taken := map[*c15Writer][]rig.Out{}
+	for _, o := range obs {
+		p := peers[o.peer]
+		id := fmt.Sprintf("step %d %s, peer %d (%s): %s", o.step, script[o.step], o.peer, p.Ski, o.how)
+		adds, adds2 := h1.addsFor(p.Ski), h2.addsFor(p.Ski)
+		if _, ok := taken[o.wr]; !ok {
+			taken[o.wr] = o.wr.take()
+		}
+		var subSeq, ucSeq int64
+		for _, out := range taken[o.wr] {
+			switch k := c15WriteKind(out.D); {
+			case k == "subscription-call" && subSeq == 0:
+				subSeq = out.Seq
+			case k == "use-case-read" && ucSeq == 0:
+				ucSeq = out.Seq
+			}
+		}
+		c.Events(4)
+		if len(adds) <= o.idx || len(adds2) <= o.idx {
+			trace = append(trace, fmt.Sprintf("%s: subscription call written@%d use-case read written@%d, DeviceChange/add not delivered to every application handler (%d, %d of %d)", id, subSeq, ucSeq, len(adds), len(adds2), o.idx+1))
+			continue // reported below as a missing delivery
+		}
+		entry, who := adds[o.idx].entry, "application handler 1"
+		if adds2[o.idx].entry < entry {
+			entry, who = adds2[o.idx].entry, "application handler 2"
+		}
+		trace = append(trace, fmt.Sprintf("%s: subscription call written@%d use-case read written@%d %s of DeviceChange/add entered@%d HandleSpineMesssage returned@%d", id, subSeq, ucSeq, who, entry, o.returned))
+		ctx := "\n script: " + strings.Join(shape, " ")
+		if subSeq == 0 || subSeq > entry {
+			c.Violate("integrated/subscription-call-not-written-before-application-handler", "%s: %s of DeviceChange/add entered at %d; NodeManagement subscription call on the tap: %d (0 = never)%s", id, who, entry, subSeq, ctx)
+		}
+		if ucSeq == 0 || ucSeq > entry {
+			c.Violate("integrated/use-case-read-not-written-before-application-handler", "%s: %s of DeviceChange/add entered at %d; use-case read on the tap: %d (0 = never)%s", id, who, entry, ucSeq, ctx)
+		}
+		if subSeq == 0 || subSeq > o.returned {
+			c.Violate("integrated/subscription-call-not-written-when-processing-of-the-discovery-reply-returned", "%s: HandleSpineMesssage returned at %d; NodeManagement subscription call on the tap: %d (0 = never)%s", id, o.returned, subSeq, ctx)
+		}
+		if ucSeq == 0 || ucSeq > o.returned {
+			c.Violate("integrated/use-case-read-not-written-when-processing-of-the-discovery-reply-returned", "%s: HandleSpineMesssage returned at %d; use-case read on the tap: %d (0 = never)%s", id, o.returned, ucSeq, ctx)
+		}
+	}
+	complete := len(obs) > 0
+	for i, p := range peers {
+		for hi, h := range []*c15IntHandler{h1, h2} {
+			c.Events(1)
+			switch got := len(h.addsFor(p.Ski)); {
+			case got < expected[i]:
+				complete = false
+				c.Violate("integrated/missing-delivery", "peer %d: %d discovery replies were processed (one DeviceChange/add each), application handler %d received %d; the process is quiet\n script: %s", i, expected[i], hi+1, got, strings.Join(shape, " "))
+			case got > expected[i]:
+				c.Violate("integrated/delivered-more-than-once", "peer %d: %d discovery replies were processed (one DeviceChange/add each), application handler %d (subscribed %d times) received %d\n script: %s", i, expected[i], hi+1, hi+1, got, strings.Join(shape, " "))
+			}
+		}
+	}
+	if c.Failed() {
+		c.Witness(map[string]any{"peers": nPeers, "script": shape, "trace": trace})
+	}
+	c.NonTrivial(complete)
+	c.Count("lifecycle_announcements_judged", int64(len(obs)))
+	c.Seen("lifecycle_templates", fmt.Sprint(tmpl))
+	c.Sample(map[string]any{"peers": nPeers, "script": shape, "writer_delay": delay.String(), "trace": trace})
 }
